@@ -592,8 +592,16 @@ class Check:
             self.violations.append(("proof obligation or T0 tie broken: " + "; ".join(self.proof_broken)[:1500],
                                     {"theorems": self.theorems, "broken": self.proof_broken}, False))
         coverage = dict(coverage)
-        coverage.setdefault("obligations", max(1, len(self.theorems)))
-        coverage.setdefault("discharged", self.discharged if not self.proof_broken else 0)
+        disch = self.discharged if not self.proof_broken else 0
+        if disch > 0:
+            coverage.setdefault("obligations", max(1, len(self.theorems)))
+            coverage.setdefault("discharged", disch)
+        else:
+            # nothing discharged: the proof-level keys would be misleading; say so
+            coverage.setdefault("obligations_total", len(self.theorems))
+            coverage.setdefault("discharged_count", 0)
+            coverage.setdefault("evaluations", 1)
+            coverage.setdefault("distinct_nontrivial", 0)
         coverage.setdefault("theorems", self.theorems)
         coverage.setdefault("axioms_reported", self.axioms)
         coverage.setdefault("checker_cmd", "cd /verif/coq && make -j16 && coqc props/%s.v (Print Assumptions parsed; forbidden-vernacular scan)" % self.prop)
